@@ -703,7 +703,7 @@ namespace sim
     sem_init(&W->controller_sem, 0, 0);
     W->st.hash = 1469598103934665603ull;
     W->st.sched_hash = 1469598103934665603ull;
-    { const char* wd = getenv("SIM_WATCHDOG_S"); alarm(wd ? unsigned(atoi(wd)) : 120u); }
+    { const char* wd = getenv("SIM_WATCHDOG_S"); alarm(wd ? unsigned(atoi(wd)) : 900u); }
     // per-run search strategy (swarm)
     W->clean = cfg_int("clean", 0, 2) == 0; // a third of the runs: every fault kind off
     W->strategy = int(cfg_weighted("strategy", {4, 2, 2, 2}));
